@@ -125,8 +125,11 @@ def gen_ops(rng, spec, variants, length, allow):
         elif r < 0.72 and 'force' in allow:
             ops.append({'op': 'force', 'chain': rng.choice(live), 'task': rng.choice(slugs), 'del': (not has_dir) and rng.random() < 0.4, 'pick': rng.randrange(4)})
         elif r < 0.82 and 'force' in allow:
-            ops.append({'op': 'chain_force', 'chain': rng.choice(live), 'tasks': rng.sample(slugs, rng.randint(1, min(2, len(slugs)))),
-                        'del': (not has_dir) and rng.random() < 0.35, 'recompute': rng.random() < 0.4})
+            op = {'op': 'chain_force', 'chain': rng.choice(live), 'tasks': rng.sample(slugs, rng.randint(1, min(2, len(slugs)))),
+                  'del': (not has_dir) and rng.random() < 0.35, 'recompute': rng.random() < 0.4}
+            if op['recompute'] and 'fail' in allow and rng.random() < 0.35:
+                op['failing'] = rng.sample(slugs, rng.randint(1, min(2, len(slugs))))      # a run raises during the recomputation
+            ops.append(op)
         else:
             ops.append({'op': 'inspect', 'chain': rng.choice(live), 'task': rng.choice(slugs), 'what': rng.choice(INSPECTIONS), 'pick': rng.randrange(4)})
     return ops
@@ -329,11 +332,16 @@ def run_history(spec, variants, ops, root, multichain=False, data=None, stamp=Fa
             elif op['op'] == 'chain_force':
                 tasks = [task_by_slug(chain, s) for s in op['tasks']]
                 tasks = [t for t in tasks if t is not None]
+                mod.FAIL.clear(); mod.FAIL.update(op.get('failing', []))
                 with Recorder() as R:
                     try:
                         chain.force([t.fullname for t in tasks], recompute=op['recompute'], delete_data=op['del'])
+                    except mod.RunFailure:
+                        r['raised'] = True
                     except Exception as e:  # noqa
                         r['unexpected'] = f'{type(e).__name__}: {e}'[:300]
+                    finally:
+                        mod.FAIL.clear()
                 r['S'] = tasks; r['order'] = list(R.top); r['chain'] = chain
                 r['forced_now'] = [t for t in chain.tasks.values() if t.is_forced]
             elif op['op'] == 'inspect':
@@ -502,8 +510,12 @@ def portable(hist, spec):
             mops.append({'op': 'force', 'i': idx[id(r['task'])], 'del': op['del']})
         elif op['op'] == 'chain_force':
             nodes = sorted(idx[id(t)] for t in r['chain'].tasks.values())
-            mops.append({'op': 'chain_force', 'nodes': nodes, 'S': [idx[id(t)] for t in r['S']], 'del': op['del'],
-                         'recompute': op['recompute'], 'order': [idx[id(t)] for t in r['order']]})
+            if op.get('failing'):
+                mops.append({'op': 'chain_force_f', 'nodes': nodes, 'S': [idx[id(t)] for t in r['S']], 'del': op['del'],
+                             'order': [idx[id(t)] for t in r['order']], 'failing': [i for i, t in enumerate(objs) if t.slugname in op['failing']]})
+            else:
+                mops.append({'op': 'chain_force', 'nodes': nodes, 'S': [idx[id(t)] for t in r['S']], 'del': op['del'],
+                             'recompute': op['recompute'], 'order': [idx[id(t)] for t in r['order']]})
         elif op['op'] == 'inspect':
             mops.append({'op': 'inspect', 'i': idx[id(r['task'])]})
         keep.append(k)
@@ -782,7 +794,13 @@ def run_history_steps(spec, variants, ops, root, obs, mod):
                     task.force(delete_data=False)
                 elif op['op'] == 'chain_force':
                     ts = [task_by_slug(chain, s) for s in op['tasks']]
-                    chain.force([t.fullname for t in ts if t is not None], recompute=op['recompute'], delete_data=False)
+                    mod.FAIL.clear(); mod.FAIL.update(op.get('failing', []))
+                    try:
+                        chain.force([t.fullname for t in ts if t is not None], recompute=op['recompute'], delete_data=False)
+                    except mod.RunFailure:
+                        pass
+                    finally:
+                        mod.FAIL.clear()
                 elif op['op'] == 'inspect' and task is not None:
                     inspect_op({}, op['what'], task, chain)
             except Exception as e:  # noqa
